@@ -402,6 +402,103 @@ def directed_prune_nets(rng, want, sizes=(5, 6, 6), tries=300):
     return out
 
 
+def arms_net(rng):
+    """k arms of >= 2 tensors, each collapsing to a small vector, attached to a hub that carries a large
+    open index: the optimum (search_outer=True) first takes the OUTER PRODUCT of the collapsed arms --
+    two multi-tensor intermediates without a common index -- and only then meets the hub."""
+    k = rng.choice([2, 2, 2, 3])
+    syms = iter(SYMS)
+    inputs, sd = [], {}
+    hub = []
+    for _ in range(k):
+        m = rng.choice([2, 2, 3]) if k == 2 else 2
+        arm = [[] for _ in range(m)]
+        # a chain with doubled bonds (so that index sets differ and the arm is worth contracting first)
+        for j in range(1, m):
+            for _ in range(rng.randint(1, 2)):
+                b = next(syms)
+                sd[b] = rng.choice([2, 3, 4, 5])
+                arm[j - 1].append(b)
+                arm[j].append(b)
+        if m == 2 and len(arm[0]) == 1:
+            b = next(syms)
+            sd[b] = rng.choice([2, 3, 4])
+            arm[0].append(b)
+            arm[1].append(b)
+        x = next(syms)
+        sd[x] = rng.choice([2, 2, 3])
+        arm[0].append(x)
+        hub.append(x)
+        inputs += arm
+    z = next(syms)
+    sd[z] = rng.choice([6, 8, 11, 16, 32])
+    hub.append(z)
+    output = [z]
+    if rng.random() < 0.3:
+        z2 = next(syms)
+        sd[z2] = rng.choice([2, 3])
+        hub.append(z2)
+        output.append(z2)
+    inputs.append(hub)
+    order = list(range(len(inputs)))
+    rng.shuffle(order)
+    inputs = [tuple(rng.sample(inputs[i], len(inputs[i]))) for i in order]
+    return inputs, tuple(output), sd
+
+
+def mm_outer_minima(spec, n):
+    """per objective key: (minimum over all trees, minimum over the trees WITHOUT an outer product between
+    two multi-tensor intermediates).  A strict gap means every optimal tree contains such an outer product."""
+    keys = list(objective_values([], FACTORS))
+    sums = [k for k in keys if k[0] in ("flops", "write", "combo", "limit")]
+
+    def trees(S):
+        S = sorted(S)
+        if len(S) == 1:
+            yield tuple(0 for _ in keys), True
+            return
+        first, rest = S[0], S[1:]
+        for msk in range(0, 2 ** len(rest) - 1):
+            A = frozenset([first] + [rest[b] for b in range(len(rest)) if msk >> b & 1])
+            B = frozenset(S) - A
+            f, s, o = spec.step(A, B)
+            d = {("flops", None): f, ("max", None): f, ("size", None): s, ("write", None): s}
+            for kf in FACTORS:
+                d[("combo", kf)] = f + kf * s
+                d[("limit", kf)] = max(f, kf * s)
+            svt = tuple(d[q] for q in keys)
+            mm = o and len(A) >= 2 and len(B) >= 2
+            tb = list(trees(B))
+            for va, na in trees(A):
+                for vb, nb_ in tb:
+                    yield (tuple((va[q] + vb[q] + svt[q]) if keys[q] in sums else max(va[q], vb[q], svt[q])
+                                 for q in range(len(keys))), na and nb_ and not mm)
+
+    best_all = best_nomm = None
+    for val, nomm in trees(frozenset(range(n))):
+        best_all = val if best_all is None else tuple(map(min, best_all, val))
+        if nomm:
+            best_nomm = val if best_nomm is None else tuple(map(min, best_nomm, val))
+    return dict(zip(keys, best_all)), dict(zip(keys, best_nomm))
+
+
+def directed_arms_nets(rng, want, tries=60):
+    """[(net, [objective keys with a strict gap])]: arm/hub networks on which, for some objective, EVERY optimal
+    tree takes an outer product of two multi-tensor intermediates (needs search_outer=True to be found)"""
+    out = []
+    for _ in range(tries):
+        if len(out) >= want:
+            break
+        inputs, output, sd = arms_net(rng)
+        if not precondition(inputs, output, sd) or len(inputs) > 7:
+            continue
+        ba, bn = mm_outer_minima(SpecNet(inputs, output, sd), len(inputs))
+        gap = [k for k in ba if ba[k] < bn[k]]
+        if gap:
+            out.append(((inputs, output, sd), gap))
+    return out
+
+
 # ---------------------------------------------------------------------------
 # worker: everything that calls cotengra runs here (subprocess, per-call alarm)
 def worker_main():
@@ -640,6 +737,30 @@ def run(ctx):
                                  "inputs": [list(t) for t in inputs], "output": list(output), "size_dict": sd,
                                  "minimize": mini, "cap": cap, "search_outer": so, "oi": oi,
                                  "entry": "function", "timeout": 30})
+    # directed: arm/hub networks whose optimum (search_outer=True) contains an outer product between two
+    # multi-tensor intermediates; every objective, both modes, three caps
+    arms = directed_arms_nets(rng, ctx.n(4, 12))
+    n_mm_strict = 0
+    for (net, gap) in arms:
+        inputs, output, sd = net
+        c = len(nets)
+        nets.append(net)
+        ctx.count("directed_arms_nets")
+        for oi, (mini, cobj, okey) in enumerate(OBJECTIVES):
+            if okey in gap:
+                n_mm_strict += 1
+                ctx.count("optimum_needs_outer_of_two_intermediates[%s]" % mini)
+            for so in (True, False):
+                for cap in ((1, 2, 10 ** 6) if okey in gap else (2,)):
+                    jobs.append({"id": "e%d_%d_%d_%d" % (c, oi, so, cap), "kind": "e2e", "net": c,
+                                 "inputs": [list(t) for t in inputs], "output": list(output), "size_dict": sd,
+                                 "minimize": mini, "cap": cap, "search_outer": so, "oi": oi,
+                                 "entry": rng.choice(["function", "class", "call"]), "timeout": 30})
+    if n_mm_strict == 0:
+        # generator floor: without such a case a finder that never examines outer products of two
+        # intermediates would pass unnoticed
+        ctx.fail("generator floor: no generated case has an optimum that contains an outer product between two "
+                 "multi-tensor intermediates (search_outer=True)", {"arms_networks": len(arms)}, found_input=False)
     # informational only: networks OUTSIDE the precondition (the property does not apply; never judged)
     info_nets = []
     for c in range(max(5, int(ctx.n(40, 300) * scale))):
@@ -949,7 +1070,9 @@ def run(ctx):
         "K1: ContractionProcessor states from precondition networks (1/3) and perverse networks (2/3: repeated "
         "indices, scalars, disconnected, hyper, leaf-only, index on all tensors), simplify on/off, every connected "
         "group, random objective (10 strings incl. custom factors), cap in %r, both search_outer; half with the full "
-        "cost-function call trace.  K2/oracle: 5/16 directed two-cluster networks (dims 2..7, n=5..7) with a sweep of small initial caps chosen, by "
+        "cost-function call trace.  K2/oracle: 4/12 directed arm/hub networks (k arms of >= 2 tensors collapsing to small vectors, hub with a large "
+        "open index) on which, by enumeration, every optimal tree for some objective takes the outer product of two "
+        "multi-tensor intermediates (generator floor: the run fails if there is none); 5/16 directed two-cluster networks (dims 2..7, n=5..7) with a sweep of small initial caps chosen, by "
         "enumeration, so that for size/max a worse tree lies in the first cap bracket in which the optimal tree's two "
         "non-leaf halves have a score SUM above the cap (exposes pruning rules that are sound only for additive "
         "objectives); 6/24 directed networks on which the objectives provably disagree "
